@@ -777,6 +777,192 @@ class Sim(object):
         self.blocked = set()
         return (A, B, L2, x, stale)
 
+    def op_fig8(self, a, b, c):
+        """Macro step (3 voters), the schedule of Figure 8 of the Raft paper: leader A accepts x alone; B is elected by
+        C and cut off before its no-op leaves, accepts y alone; A is elected again by C, C stores x but the link
+        breaks before A's new no-op arrives (a leader that commits x now by counting replicas is wrong); then B is
+        elected by C and overwrites x."""
+        voters = [v for v in self.voters if v in self.nodes]
+        if len(voters) != 3 or len(self.voters) != 3:
+            return False
+        leaders = lambda grp: [v for v in grp if v in self.nodes and self.nodes[v]._isLeader()]
+        self.blocked = set()
+        self.held.clear()
+        if not self.rounds_until(lambda: len(leaders(voters)) == 1, 300) or self.viol:
+            return False
+        for _ in range(5):
+            self.calm_round()
+        if len(leaders(voters)) != 1 or self.viol:
+            return False
+        A = leaders(voters)[0]
+        others = [v for v in voters if v != A]
+        B, C = (others[0], others[1]) if a % 2 == 0 else (others[1], others[0])
+
+        def link(x, y):
+            for g in self.net.gens:
+                if g.alive and set((g.a, g.b)) == set((x, y)):
+                    return g
+
+        def elect(X, Y, limit=3000):
+            # X and Y alone: X times out first; messages travel one at a time; stop the moment X is leader of a new term
+            t0 = max(self.nodes[X].raftCurrentTerm, self.nodes[Y].raftCurrentTerm)
+            won = lambda: self.nodes[X]._isLeader() and self.nodes[X].raftCurrentTerm > t0
+            if self.nodes[X]._isLeader():
+                # a cut-off leader of an old term: let its leaderFallbackTimeout pass
+                self.tick_node(X, float(self.cfg.get('fallback', 2.0)) + 0.2)
+            for _ in range(limit):
+                if self.viol or X not in self.nodes or Y not in self.nodes:
+                    return False
+                if won():
+                    return True
+                for g, x in self._noticeables():
+                    if x in (X, Y):
+                        self.net.notice(g, x)
+                for (p, q) in self._connectables():
+                    if set((p, q)) == set((X, Y)):
+                        self.net.connect(p, q)
+                self.tick_node(X, 0.02)
+                if won():
+                    return True
+                self.tick_node(Y, 0.0001)
+                g = link(X, Y)
+                while g is not None and (self.net.deliver(g, Y) or self.net.deliver(g, X)):
+                    if won():
+                        return True
+                self.check(light=True)
+            return False
+        # 1. A accepts x alone
+        self.set_partition({A})
+        sx = self.submit(A, self.payload(1, self.next_cid))
+        self.tick_node(A, 0.02)
+        self.check(light=True)
+        xlast = core.log_of(self.nodes[A])[-1]
+        # 2. B elected by C, cut off before its no-op leaves, accepts y alone
+        if not elect(B, C):
+            self.blocked = set()
+            return (A, B, C, 'no-B')
+        self.set_partition({B})
+        self.submit(B, self.payload(1, self.next_cid))
+        self.tick_node(B, 0.02)
+        self.check(light=True)
+        # 3. A elected again by C
+        if not elect(A, C):
+            self.blocked = set()
+            return (A, B, C, 'no-A-again')
+        reached = False
+        for _ in range(400):
+            if self.viol or reached:
+                break
+            self.tick_node(A, 0.02)
+            g = link(A, C)
+            if g is None:
+                for g2, x in self._noticeables():
+                    if x in (A, C):
+                        self.net.notice(g2, x)
+                for (p, q) in self._connectables():
+                    if set((p, q)) == set((A, C)):
+                        self.net.connect(p, q)
+                continue
+            while self.net.deliver(g, C) or self.net.deliver(g, A):
+                logC = core.log_of(self.nodes[C])
+                e = core.entry_at(self.nodes[C], xlast[1])
+                if e is not None and e[2] == xlast[2] and logC[-1][1] == xlast[1]:
+                    while self.net.deliver(g, A):      # C's acknowledgement of x reaches A
+                        pass
+                    self.net.break_(g, 0, 0)            # A's new no-op never reaches C
+                    reached = True
+                    break
+            self.check(light=True)
+        # 4. the moment of truth for the commit rule
+        self.tick_node(A, 0.02)
+        self.check(light=True)
+        # 5. A cut off, B (or C) takes over
+        self.set_partition({A})
+        rest = [B, C]
+        if self.rounds_until(lambda: len(leaders(rest)) == 1 and self.nodes[leaders(rest)[0]].raftCurrentTerm > self.nodes[A].raftCurrentTerm, 600) and not self.viol:
+            self.submit(leaders(rest)[0], self.payload(1, self.next_cid))
+            for _ in range(10):
+                self.calm_round()
+        # 6. heal
+        self.blocked = set()
+        for _ in range(30):
+            self.calm_round()
+            if self.viol:
+                break
+        self.counters['fig8_completed'] += 1
+        if reached:
+            self.counters['fig8_state_reached'] += 1
+        return (A, B, C, reached)
+
+    def op_staleterm(self, a, b, c):
+        """Macro step for journaled nodes: leader L1 is cut off; the rest elects L2 and a follower F of L2 acknowledges
+        the new term; F is killed and restarted and then hears only from L1 (still leader or campaigning in older
+        terms) for a while; then everything heals."""
+        voters = [v for v in self.voters if v in self.nodes]
+        if len(voters) < 3:
+            return False
+        leaders = lambda grp: [v for v in grp if v in self.nodes and self.nodes[v]._isLeader()]
+        if len(leaders(voters)) != 1:
+            self.blocked = set()
+            if not self.rounds_until(lambda: len(leaders(voters)) == 1, 200):
+                return False
+        L1 = leaders(voters)[0]
+        rest = [v for v in voters if v != L1]
+        if len(rest) * 2 <= len(self.voters):
+            return False
+        F = None
+        if (len(rest) - 1) * 2 > len(self.voters) and b % 2 == 0:
+            # F sits out the election (cut off alone) and learns the new term from the new leader, not by voting
+            F = rest[a % len(rest)]
+            rest = [v for v in rest if v != F]
+            names = self.voters + self.ro
+            self.blocked = set(frozenset((x, y)) for x in names for y in names if x < y and not (x in rest and y in rest))
+            for g in self.net.gens:
+                if g.alive and frozenset((g.a, g.b)) in self.blocked:
+                    self.net.break_(g, 0, 0)
+        else:
+            self.set_partition({L1})
+        if not self.rounds_until(lambda: len(leaders(rest)) == 1, 300) or self.viol:
+            return (L1, 'no-second-leader')
+        L2 = leaders(rest)[0]
+        if F is not None:
+            self.set_partition({L1})        # F joins the majority side
+        self.submit(L2, self.payload(1, self.next_cid))
+        for _ in range(5):
+            self.calm_round()
+        if F is None:
+            cands = [v for v in rest if v != L2 and v in self.nodes]
+            if not cands or self.viol:
+                return (L1, L2, 'no-follower')
+            F = cands[a % len(cands)]
+        if F not in self.nodes or L1 not in self.nodes:
+            return (L1, L2, 'gone')
+        t_before = self.nodes[F].raftCurrentTerm
+        self.check(light=True)
+        kill = getattr(self, 'do_kill', None)
+        if kill is not None:
+            kill(F, 'staleterm')
+        else:
+            self.stop_node(F, clean=False)
+        if hasattr(self, 'pending_restart_check'):
+            self.op_restart(self.dead_voters().index(F), 0, 0)
+        else:
+            self.restart_node(F)
+        if F not in self.nodes:
+            return (L1, L2, F, 'restart-failed')
+        self.set_partition({L1, F})
+        for _ in range(20 * (1 + c % 3)):
+            self.calm_round()
+            if self.viol:
+                break
+        self.blocked = set()
+        for _ in range(20):
+            self.calm_round()
+            if self.viol:
+                break
+        self.counters['staleterm_completed'] += 1
+        return (L1, L2, F, t_before)
+
     def op_heal(self, a, b, c):
         if not self.blocked and not self.held:
             return False
